@@ -23,7 +23,7 @@ from ..parallel import pmap, Crashed
 from .. import tlc as T
 
 PID = "C20"
-COLS = ["c0", "c1", "c2", "f", "s", "k"]
+COLS = ["c0", "c1", "c2", "f", "s", "k", "t", "u"]
 
 
 def make_file(fp, d):
@@ -33,7 +33,9 @@ def make_file(fp, d):
     df = pd.DataFrame({"c0": np.arange(n, dtype="int64") + 7000, "c1": np.arange(n, dtype="int64") * 3 + 100,
                        "c2": np.arange(n, dtype="int32") + 50, "f": np.arange(n) * 0.5 + 0.25,
                        "s": pd.Series(["t%03d" % (i * 7) for i in range(n)], dtype="str"),
-                       "k": pd.Categorical(["u", "v", "u", "w", "v", "u", "w", "w"])})
+                       "k": pd.Categorical(["u", "v", "u", "w", "v", "u", "w", "w"]),
+                       "t": pd.date_range("2020-01-01", periods=n, freq="D"),
+                       "u": np.arange(n, dtype="uint64") + np.uint64(2 ** 63 - 3)})
     fn = os.path.join(d, "shared.parquet")
     fp.write(fn, df, row_group_offsets=[0, 2, 4, 6], stats=True)
     return fn
@@ -52,9 +54,14 @@ def ops(fp):
     """name -> (kind for the spec, names looked up, callable(pf))"""
     def sl(pf):
         p2 = pf[1:3]
+        return [len(p2.row_groups), p2.count(), list(p2.columns)]
+
+    def slr(pf):
+        p2 = pf[1:3]
         return [len(p2.row_groups), p2.count(), list(p2.columns), digest(p2.to_pandas())]
     return {
         "slice": ("slice", [], sl),
+        "slice_read": ("slice", [], slr),
         "pick": ("slice", [], lambda pf: [pf[2].count(), list(pf[2].columns)]),
         "iter": ("slice", [], lambda pf: [digest(df) for df in pf.iter_row_groups()]),
         "head": ("slice", [], lambda pf: digest(pf.head(3))),
@@ -67,6 +74,10 @@ def ops(fp):
         "count": ("read", [], lambda pf: pf.count()),
         "count_filter": ("read", ["c0"], lambda pf: pf.count(filters=[("c0", ">", 7002)])),
         "pickle": ("iter", [], lambda pf: pickle.loads(pickle.dumps(pf)).count()),
+        # filters on columns whose statistics need conversion (memoised inside the shared statistics dict)
+        "filter_t": ("filter", ["t"], lambda pf: digest(pf.to_pandas(filters=[("t", ">=", __import__("numpy").datetime64("2020-01-04"))]))),
+        "filter_u": ("filter", ["u"], lambda pf: digest(pf.to_pandas(filters=[("u", ">=", 2 ** 63 + 1)]))),
+        "count_t": ("filter", ["t"], lambda pf: pf.count(filters=[("t", "<", __import__("numpy").datetime64("2020-01-05"))])),
     }
 
 
@@ -170,17 +181,20 @@ def run(tier, seed):
     return rc
 
 
-def _tlc(ev, work, threads, opsn, shared, expect_violation):
-    cfg = os.path.join(work, "h-%s-%s-%s.cfg" % (threads, opsn, shared))
+def _tlc(ev, work, threads, opsn, shared, expect_violation, memo_atomic=True):
+    cfg = os.path.join(work, "h-%s-%s-%s-%s.cfg" % (threads, opsn, shared, memo_atomic))
     T.write_cfg(cfg, spec="Spec", constants={"Threads": "<- " + threads, "Names": "<- N3", "OpsInit": "<- " + opsn,
-                                             "LookupInit": "<- LookAll", "SliceSharesSchemaDicts": shared},
+                                             "LookupInit": "<- LookAll", "SliceSharesSchemaDicts": shared,
+                                             "MemoAtomic": memo_atomic},
                 invariants=["NoOpFailsBecauseOfAnother", "ParentUndisturbed"], properties=["AllFinish"],
                 check_deadlock=False)
     res = T.run_tlc("HandlesMC", cfg, work, workers=4, coverage=not expect_violation, timeout=600)
     if expect_violation:
         if not res.violated:
             raise T.TLCError("Handles with shared dicts must violate the contract (%s %s)" % (threads, opsn))
-        ev.add_tlc("Handles %s %s, shared element dicts (as found before the fix): %s violated" % (threads, opsn, res.violated), res)
+        ev.add_tlc("Handles %s %s, %s: %s violated as it must be" % (
+            threads, opsn, "shared element dicts (as found before the fix)" if shared else "two-step memo publication (model mutant)",
+            res.violated), res)
     else:
         if not res.ok:
             print(res.out[-2000:])
@@ -193,6 +207,9 @@ def _run(ev, work, thorough, seed):
         _tlc(ev, work, th, opsn, False, False)
     for th, opsn in (("T2", "OpsSR"), ("T2", "OpsSI"), ("T3", "OpsSSR")):
         _tlc(ev, work, th, opsn, True, True)
+    _tlc(ev, work, "T2", "OpsFF", False, False)
+    _tlc(ev, work, "T3", "OpsFFS", False, False)
+    _tlc(ev, work, "T2", "OpsFF", False, True, memo_atomic=False)
     fp = use_repo()
     fn = make_file(fp, work)
     O = ops(fp)
@@ -202,11 +219,12 @@ def _run(ev, work, thorough, seed):
         pairs = [(a, b) for a in names for b in names]
     else:
         pairs = [(a, b) for a in ("slice", "pick") for b in names] + \
+                [(a, b) for a in ("filter_t", "filter_u", "count_t") for b in ("filter_t", "filter_u", "count_t")] + \
                 [(a, b) for a in ("head", "iter", "statistics", "to_pandas_cols", "pickle")
                  for b in ("to_pandas", "slice", "pickle", "statistics")]
     jobs = []
     for (a, b) in pairs:
-        heavy = a in ("iter", "to_pandas", "to_pandas_filter", "to_pandas_cat", "head")
+        heavy = a in ("iter", "to_pandas", "to_pandas_filter", "to_pandas_cat", "head", "filter_t", "filter_u", "slice_read")
         stride = 1 if (thorough or not heavy) else 5
         jobs.append((len(jobs), fn, a, b, False, stride))
     if thorough:
@@ -237,6 +255,8 @@ def _run(ev, work, thorough, seed):
                  {"preempt_at_line_event": b["at"], "where": b["where"]}, cost=b["at"])
     # ---- trace validation ----
     rejected = 0
+    if not thorough:
+        traces = traces[::max(1, len(traces) // 12000)]
     if traces:
         tf = os.path.join(work, "htraces.json")
         with open(tf, "w") as f:
